@@ -142,11 +142,31 @@ ASSUME_TRACE = ["hook events (cfg pickle_fuzzer_verif) report the generator's re
                 "RefPVM/Lexer transcribe CPython pickletools.dis / pickle.py semantics correctly (differentially tested against pickletools in the self-test)"]
 ASSUME_MC = ["exhaustive model-checking results transfer to the code only while trace validation reports no MODEL-DRIFT between GenCore guards/effects and the implementation"]
 
-def generic_tracegen_check(prop, mc_names, extra_notes=()):
+def add_edges(res, ed, prop):
+    seen = set()
+    for f in ed["findings"]:
+        if f["kind"] == "V" and f["tag"] == prop:
+            sig = "%s:edges:%s" % (prop, f["why"])
+            k = (sig, f["edge"]["op"], json.dumps(f["edge"]["pre"]))
+            if k in seen: continue
+            seen.add(k)
+            res.violation(sig, "%s when opcode 0x%02x is forced in state %s [%s, path %s]" % (
+                f["why"], f["edge"]["op"], json.dumps(f["edge"]["pre"]), f["config"], [x[0] for x in f["edge"]["path"]]),
+                {"stage": "edges", "edge": f["edge"], "property": prop, "reason": f["why"]})
+        elif f["kind"] == "D":
+            res.drift.append({"tag": f["tag"], "why": f["why"], "job": f["config"], "event": "forced 0x%02x in %s" % (f["edge"]["op"], json.dumps(f["edge"]["pre"]))})
+    cov = ed["coverage"]
+    res.coverage["traces_validated_against_impl"] = res.coverage.get("traces_validated_against_impl", 0) + cov["edges"]
+    res.coverage["forced_choice_edges"] = cov
+    res.samples.extend(ed["samples"][:2])
+
+def generic_tracegen_check(prop, mc_names, extra_notes=(), edges=False):
     def fn(tier_):
         res = Result(prop)
         tg = stages.tracegen_stage(tier_, tree_key("tracegen-" + tier_ + str(seed())))
         add_tracegen(res, tg, prop)
+        if edges:
+            add_edges(res, stages.edges_stage(tier_, tree_key("edges-" + tier_ + str(seed()))), prop)
         if mc_names:
             add_mc(res, tier_, mc_names)
         res.assumptions = ASSUME_TRACE + (ASSUME_MC if mc_names else [])
@@ -158,13 +178,13 @@ MC_SAFETY = ["MC_RunQuick", "MC_RunThorough", "MC_RunDeep", "MC_Step", "MC_StepD
 MC_RUNS_ONLY = ["MC_RunQuick", "MC_RunThorough", "MC_RunDeep"]
 
 CHECKS = {
-    "C01": generic_tracegen_check("C01", MC_SAFETY),
-    "C02": generic_tracegen_check("C02", MC_SAFETY),
-    "C03": generic_tracegen_check("C03", MC_SAFETY),
+    "C01": generic_tracegen_check("C01", MC_SAFETY, edges=True),
+    "C02": generic_tracegen_check("C02", MC_SAFETY, edges=True),
+    "C03": generic_tracegen_check("C03", MC_SAFETY, edges=True),
     "C04": generic_tracegen_check("C04", []),
     "C05": generic_tracegen_check("C05", MC_SAFETY),
     "C06": generic_tracegen_check("C06", MC_RUNS_ONLY),
     "C10": generic_tracegen_check("C10", MC_RUNS_ONLY),
     "C11": generic_tracegen_check("C11", MC_RUNS_ONLY + ["MC_Live"]),
-    "C17": generic_tracegen_check("C17", MC_SAFETY),
+    "C17": generic_tracegen_check("C17", MC_SAFETY, edges=True),
 }
